@@ -185,6 +185,7 @@ type scenarioResult struct {
 	runStart     int64  // sequence number taken just before Run / RunOffline is called
 	runFail      int64  // sequence number taken after Run returned an error (listen failed)
 	variant      string // "" = the concurrent-traffic scenario, else the life-cycle variant
+	established  bool   // life-cycle: an outgoing connection was registered in the pool before Shutdown
 	secondShut   string // life-cycle "shutdown-twice": how the second Shutdown ended
 	stacks       string // goroutine dump taken when the watchdog fired
 	fds          int
@@ -568,11 +569,43 @@ func lifecycle(r *Rng, variant string, hist Hist) (*scenarioResult, error) {
 		return nil, err
 	}
 	ref.pool = pool
-	target := fmt.Sprintf("127.0.0.1:%d", port)
+	// a live local listener: outgoing connections to it succeed
+	lp, err := newPeer()
+	if err != nil {
+		return nil, err
+	}
+	defer lp.close()
+	target := lp.addr
 
 	nthreads := 2 + r.Intn(2)
-	res.threads = nthreads
-	res.calls = make([][]callRec, nthreads)
+	res.threads = nthreads + 1 // the last "thread" is this function: it establishes a connection before Shutdown
+	res.calls = make([][]callRec, nthreads+1)
+	mainCall := func(op string, f func() error) error {
+		rec := callRec{op: op, start: nextSeq()}
+		err := f()
+		rec.ret = nextSeq()
+		rec.ran, rec.class = classify(err)
+		res.calls[nthreads] = append(res.calls[nthreads], rec)
+		return err
+	}
+	// at least one outgoing Connect must have SUCCEEDED (connection registered in the
+	// pool) before Shutdown is called
+	establish := func() {
+		if err := mainCall("Connect", func() error { return pool.Connect(target) }); err != nil {
+			return
+		}
+		for i := 0; i < 400 && !res.established; i++ {
+			var n int
+			if err := mainCall("Size", func() error { var e error; n, e = pool.Size(); return e }); err != nil {
+				return
+			}
+			if n > 0 {
+				res.established = true
+			} else {
+				time.Sleep(2 * time.Millisecond)
+			}
+		}
+	}
 	var wg sync.WaitGroup
 	phase := make([]chan struct{}, 3) // calls before Shutdown | during | after Shutdown returned
 	for i := range phase {
@@ -701,6 +734,7 @@ func lifecycle(r *Rng, variant string, hist Hist) (*scenarioResult, error) {
 		} else {
 			time.Sleep(time.Duration(500+r.Intn(3000)) * time.Microsecond)
 		}
+		establish()
 		close(phase[0]) // calls between the (failed) Run and Shutdown
 		time.Sleep(time.Duration(r.Intn(3000)) * time.Microsecond)
 		res.shutStart = nextSeq()
@@ -866,14 +900,14 @@ func run(args []string) error {
 		}
 		sz := res.sizes[0] + res.sizes[1] + res.sizes[2] + res.sizes[3] + res.sizes[4]
 		cases = append(cases, Tuple(List(perThread), List(codes), B(res.hang || !res.runReturned), fmt.Sprint(sz), fmt.Sprint(res.panics)))
-		cj := map[string]interface{}{"life_cycle_variant": res.variant, "second_shutdown": res.secondShut, "threads": res.threads, "gomaxprocs": res.maxprocs, "calls_per_thread": perThread, "events": evJSON,
+		cj := map[string]interface{}{"life_cycle_variant": res.variant, "second_shutdown": res.secondShut, "outgoing_connection_established_before_shutdown": res.established, "threads": res.threads, "gomaxprocs": res.maxprocs, "calls_per_thread": perThread, "events": evJSON,
 			"hang": res.hang, "run_returned": res.runReturned, "pool_maps_total_size_after_shutdown": sz, "panics": res.panics, "panic_text": res.panicText, "goroutines_at_watchdog": res.stacks, "open_fds": res.fds,
 			"calls_ran": nran, "calls_pool_closed": nclosed, "calls_started_after_shutdown_returned": nafter}
 		caseJSON["trace"] = append(caseJSON["trace"], cj)
 		o.Count(fmt.Sprint("trace", s, codes), nran > 0 && nclosed > 0)
 		hist.Add(fmt.Sprintf("scenario:threads=%d", res.threads))
 		if res.variant != "" {
-			hist.Add("lifecycle:" + res.variant)
+			hist.Add(fmt.Sprintf("lifecycle:%s:established=%v", res.variant, res.established))
 		}
 		if res.hang {
 			hist.Add("scenario:HANG")
